@@ -34,7 +34,8 @@ RULE = ("cases: C11's programs (random scripts over acquire/release/sleep/wait w
         "contenders, int/float/Priority-enum priorities with ties, plain and Python tasks mixed in, cancels (also of a waiter that inherited while queued), crowded locks (9..25 waiters) in a chain; "
         "both loops.  Non-trivial = the run reached a hand-over with at least two queued waiters, or one "
         "decided by a priority inherited while queued, or a tie, or a hand-over caused by a waiter giving up.  "
-        "distinct = hash of the canonical case")
+        "distinct = hash of the canonical case.  The corpus and a fixed grid of directed cases (a few "
+        "instances per directed generator kind, private generator with a constant seed) run first on every run")
 
 KINDS = {
     "handover-order": "the future that is set belongs to the (effective priority, arrival)-minimal queued waiter",
@@ -57,6 +58,10 @@ def gen(rng, n):
             out.append(S.gen_chain_contended_case(rng, "C12", crowd=S.crowd_size(rng) - 1))
         elif g < 0.04:
             out.append(S.gen_inherited_giveup_case(rng))
+        elif g < 0.07:
+            out.append(S.gen_tie_rekey_case(rng))
+        elif g < 0.10:
+            out.append(S.gen_plain_donor_case(rng))
         elif g < 0.40:
             out.append(S.gen_case(rng, "C12"))
         elif g < 0.70:
@@ -78,7 +83,7 @@ def gen(rng, n):
 
 def run(ctx):
     rng = ctx.rng
-    S.explore(ctx, S.corpus_cases(PROP), KINDS, THEOREM, label="corpus: ", nontrivial=NONTRIVIAL)
+    S.explore(ctx, S.corpus_cases(PROP) + S.grid_cases(PROP), KINDS, THEOREM, label="corpus/grid: ", nontrivial=NONTRIVIAL)
     cases = gen(rng, 30000 if ctx.thorough() else 2500)
     runs = S.explore(ctx, cases, KINDS, THEOREM, nontrivial=NONTRIVIAL)
     for c in cases[:2]:
